@@ -194,7 +194,12 @@ Definition l_step (a : ganswer) (c : cfg) : cfg :=
     end
   | LSync1 p =>
     let sh := c_cache c in
-    if h_height p <=? h_height sh then c <| c_loop := LIdle |>
+    if h_height p <=? h_height sh then
+      (* already synced: drop the pending heads the store already has *)
+      match ranges_remove_upto (h_height sh) (c_pend c) with
+      | Some rs => c <| c_pend := rs |> <| c_loop := LIdle |>
+      | None => c <| c_loop := LPanic |>
+      end
     else
       let st := c_state c in
       c <| c_state := SState (wrap64 (ss_id st + 1)) (wrap64 (h_height sh + 1)) (h_height p) (ss_err st) |>
